@@ -273,7 +273,7 @@ func genGun(r *rand.Rand, inst int) string {
 }
 
 func gen(r *rand.Rand, tier string) []string {
-	nProv, nGun1, nGun4 := 1200, 500, 250
+	nProv, nGun1, nGun4 := 800, 340, 170
 	if tier == "thorough" {
 		nProv, nGun1, nGun4 = 16000, 6000, 3000
 	}
